@@ -2,6 +2,7 @@ package main
 
 import (
 	"fmt"
+	"regexp"
 	"sort"
 	"strings"
 
@@ -337,6 +338,40 @@ func rulesC08(e *Engine, r *Report) {
 	// ---------------------------------------------------------------- R08.7
 	r.Rule("R08.7", "`every byte acknowledged` is measured against the bytes to be sent: the chunk's send size is getSendSize() of the very queue node the chunk was cut from (Σ missing ranges for a resumed file, else the file size) - shared with R03.8")
 	e.checkSendSize(r, "R08.7")
+	// ---------------------------------------------------------------- R08.8
+	r.Rule("R08.8", "the tracker's target for a resumed file is all of its missing bytes: recoverFile.GetSendSize sums End-Beg over the whole list of missing ranges (the queue asks for it after it has allocated the chunk, i.e. after the cursor into that list has moved; a sum from the cursor on shrinks with every range used up, and the chunk that finishes range k would declare the file sent while later ranges are still out)")
+	if fn := needFn(e, r, "R08.8", "client.(*recoverFile).GetSendSize"); fn != nil {
+		re := regexp.MustCompile(`^phi\(\(phi# \+ \(p0\.left\[(.+)\]\.End - p0\.left\[(.+)\]\.Beg\)\)\|0\)$`)
+		n, ok := 0, true
+		var got []string
+		Instrs(fn, func(in ssa.Instruction) {
+			if rt, isRet := in.(*ssa.Return); isRet && len(rt.Results) == 1 {
+				n++
+				s := e.Canon(rt.Results[0])
+				got = append(got, s)
+				m := re.FindStringSubmatch(s)
+				if m == nil || m[1] != m[2] {
+					ok = false
+					return
+				}
+				// the index runs over the whole list
+				conds := 0
+				for _, b := range fn.Blocks {
+					if t, isIf := b.Instrs[len(b.Instrs)-1].(*ssa.If); isIf {
+						c := e.Canon(t.Cond)
+						if c == "("+m[1]+" < builtin(len)(p0.left))" {
+							conds++
+						}
+					}
+				}
+				if conds == 0 || !(strings.HasPrefix(m[1], "(phi((phi# + 1)|-1) + 1)") || strings.HasPrefix(m[1], "phi((phi# + 1)|0)")) {
+					ok = false
+				}
+			}
+		})
+		r.Check(ok && n == 1, "R08.8", "client.(*recoverFile).GetSendSize: sum of End-Beg over all of p0.left", e.Pos(fn.Pos()),
+			"the send size of a resumed file is not the sum over the whole list of missing ranges: "+strings.Join(got, "; "), 1, got...)
+	}
 }
 
 // constOr renders a package-level string constant as a canonical literal.
